@@ -306,6 +306,25 @@ Theorem C18_group_by_tag_first : forall t gt gv c g,
 Proof. exact group_by_tag_first. Qed.
 Print Assumptions C18_group_by_tag_first.
 
+(* ------------------------------------------------------------------ query *)
+
+Theorem C18_query_int : forall z c,
+  c_query [TInt z] c = match c_get (TInt z) DNone c with
+                       | Ok r => Ok [(z_to_dec z, r)]
+                       | Exc e => Exc e
+                       end.
+Proof. exact query_int. Qed.
+Print Assumptions C18_query_int.
+
+(* recorded behaviour, not alarmed (DESIGN.md section 8: non-canonical spellings are distinct keys):
+   query() normalises a spelling with int(), so it reads key "5" where set/get use " 5" *)
+Example C18_query_noncanonical :
+  let c := C None [([32; 53], VStr [97])] in
+  c_get (TStr [32; 53]) DNone c = Ok (RvStr [97]) /\ c_get (TInt 5) DNone c = Ok RvNone
+  /\ c_query [TStr [32; 53]] c = Ok [([53], RvNone)] /\ c_query [] c = Ok [([53], RvNone)].
+Proof. exact query_noncanonical. Qed.
+Print Assumptions C18_query_noncanonical.
+
 (* ------------------------------------------------------------------ equality with a container *)
 
 (* full statement of the property:  forall a b, c_eq a b = true <-> items a = items b  -- refuted *)
